@@ -59,7 +59,7 @@ pub fn run(args: &Args) {
     stats.write(&args.out);
 }
 
-fn gen_random(g: &mut ExprGen) -> ExprRef {
+pub fn gen_random(g: &mut ExprGen) -> ExprRef {
     let depth = g.cfg.max_depth;
     if g.rng.chance(1, 8) {
         let iw = g.rng.range(1, 4) as WidthInt;
